@@ -83,3 +83,13 @@ MUTANTS["C05"] = [
     ("normalize_real_only", "lentil/util.py", "return array * np.sqrt(power/np.sum(np.abs(array)**2))", "return array * np.sqrt(power/np.sum(np.real(array)**2))"),
     ("alpha_iso", "lentil/propagate.py", "    return ((dx[0]*du[0])/(wavelength*z*oversample),\n            (dx[1]*du[1])", "    return ((dx[0]*du[0])/(wavelength*z*oversample),\n            (dx[0]*du[0])"),
 ]
+MUTANTS["C07"] = [
+    ("phasor_sign", "lentil/plane.py", "amp*np.exp(2*np.pi*1j*opd/wavefront.wavelength)", "amp*np.exp(-2*np.pi*1j*opd/wavefront.wavelength)"),
+    ("insert_weight_ignored", "lentil/field.py", "out[out_slice] += (np.abs(field.data[field_slice]**2) * weight)", "out[out_slice] += (np.abs(field.data[field_slice]**2))"),
+    ("intensity_no_reduce", "lentil/wavefront.py", "        out = np.zeros(self.shape, dtype=float)\n        for field in lentil.field.reduce(self.data):", "        out = np.zeros(self.shape, dtype=float)\n        for field in self.data:"),
+    ("insert_no_reduce", "lentil/wavefront.py", "        for field in lentil.field.reduce(self.data):\n            out = lentil.field.insert(field, out, intensity=True, weight=weight)", "        for field in self.data:\n            out = lentil.field.insert(field, out, intensity=True, weight=weight)"),
+    ("focal_length_not_taken", "lentil/plane.py", "        wavefront.focal_length = self.focal_length\n", "        pass\n"),
+    ("scalar_amp_bbox_only", "lentil/plane.py", "amp = self.amplitude if mask.size == 1 else self.amplitude * mask[s]", "amp = self.amplitude"),
+    ("pixelscale_check_row_only", "lentil/plane.py", "if a_pixelscale[0] == b_pixelscale[0] and a_pixelscale[1] == b_pixelscale[1]:", "if a_pixelscale[0] == b_pixelscale[0]:"),
+    ("wavelength_in_place", "lentil/plane.py", "        out = lentil.Wavefront.empty(wavelength=wavefront.wavelength,", "        out = lentil.Wavefront.empty(wavelength=wavefront.wavelength*(1+1e-9),"),
+]
